@@ -25,8 +25,8 @@ RULE = (
     "long names (GNU L records, PAX path records, ustar prefixes up to 155 bytes that overlap the visor offset field), end-of-"
     "archive blocks and trailing padding; payloads that are themselves tar archives (valid block-aligned headers inside the data "
     "area, possibly repeating an outer name); the data area placed around and above 2^31 (sparse in-memory handle); plain and "
-    "gzip-wrapped; ordinary archives handed over at a non-zero position of a larger file; archives opened by file name after an "
-    "unrelated archive was opened from a handle. Headers come from TarInfo.tobuf and are patched (magic "
+    "gzip-wrapped; ordinary archives handed over at a non-zero position of a larger file; archives opened by file name (any extension, whatever the "
+    "content) after an unrelated archive was opened from a handle; gzip wrapping in one or several concatenated members. Headers come from TarInfo.tobuf and are patched (magic "
     "'visor  ', little-endian data offset at 496, page counts at 504/508, checksum recomputed). Oracle: names, types and sizes "
     "in header order equal the spec, extractfile(m).read() equals the bytes placed at the recorded offset; archives without "
     "visor members must list and extract exactly as tarfile.open does. Non-trivial = >= 2 visor files whose data order "
@@ -108,7 +108,11 @@ def archive_spec(draw, tier):
             "far": draw(st.sampled_from([0, 0, 0, 0, 0x7FFFF000, 0x80000000, 0xC0000000, 0xFFF00000])),
             # bytes in front of the archive inside the same file; the handle is handed over positioned at the archive's start
             # (ordinary uncompressed archives: compared with what tarfile.open does with the same handle)
-            "prefix": draw(st.sampled_from([0, 0, 0, 1, 512, 700, 10240]))}
+            "prefix": draw(st.sampled_from([0, 0, 0, 1, 512, 700, 10240])),
+            # gzip-wrapped archives as several concatenated gzip members (cut points in 512-byte blocks); the file name used when
+            # an archive is opened by name, whose extension says nothing reliable about the content
+            "gzip_cuts": draw(st.lists(st.integers(1, 60), max_size=3, unique=True)),
+            "file_name": draw(st.sampled_from(["archive.v00", "s.v00", "imgdb.tgz", "state.tgz", "s.vgz", "x.gz", "UPPER.VGZ", "noext"]))}
 
 
 def strategy(tier):
@@ -248,7 +252,14 @@ def check(spec) -> Outcome:
         blob = None
     else:
         raw, expected = build(spec)
-        blob = gzip.compress(raw, 1, mtime=0) if spec["gzip"] else raw
+        if spec["gzip"]:
+            cuts = sorted({min(c * 512, len(raw)) for c in spec.get("gzip_cuts", [])} - {0, len(raw)})
+            parts = [raw[a:b] for a, b in zip([0] + cuts, cuts + [len(raw)])]
+            blob = b"".join(gzip.compress(p_, 1, mtime=0) for p_ in parts)
+            if len(parts) > 1:
+                out.cls("multi-member-gzip")
+        else:
+            blob = raw
     has_visor = any(m["kind"].startswith("visor") for m in spec["members"])
     out.nontrivial = nontrivial(spec)
     out.cls("gzip" if spec["gzip"] else "plain", "visor" if has_visor else "no-visor", f"members={min(len(spec['members']) // 4 * 4, 12)}+")
@@ -271,7 +282,7 @@ def check(spec) -> Outcome:
             # opened by file name, right after an unrelated archive was opened from a handle with an explicit mode
             d = tempfile.mkdtemp(prefix="c20-", dir="/dev/shm" if os.path.isdir("/dev/shm") else None)
             try:
-                p = os.path.join(d, "archive.v00")
+                p = os.path.join(d, spec.get("file_name", "archive.v00"))
                 with open(p, "wb") as f:
                     f.write(blob)
                 other = vmtar.open(fileobj=io.BytesIO(DECOY), mode="r:")
